@@ -18,6 +18,7 @@ import (
 	"testing"
 	"time"
 
+	seccomp "github.com/elastic/go-seccomp-bpf"
 	"github.com/elastic/go-seccomp-bpf/arch"
 
 	"verif/harness/crossassert"
@@ -519,7 +520,13 @@ func checkC19Wasm(raw json.RawMessage) (ev.Result, error) { return checkWasm(raw
 
 // checkWasm is shared by C19 (stubs, constants, no filter on a table-less target) and C07 ("an architecture without
 // syscall tables": error and no program, never a panic - here with the architecture being the real build target).
-func checkWasm(raw json.RawMessage) (ev.Result, error) {
+func checkWasm(raw json.RawMessage) (ev.Result, error) { return checkWasmOpt(raw, false) }
+
+// checkC13Wasm: the same run, and the text forms of action and flag values printed by the js/wasm process must be the
+// ones this linux/amd64 process prints ("a deterministic function of the value ... across processes").
+func checkC13Wasm(raw json.RawMessage) (ev.Result, error) { return checkWasmOpt(raw, true) }
+
+func checkWasmOpt(raw json.RawMessage, texts bool) (ev.Result, error) {
 	var c c19WasmCase
 	if err := json.Unmarshal(raw, &c); err != nil {
 		return ev.Result{}, ev.Inconclusivef("bad case: %v", err)
@@ -586,6 +593,7 @@ func checkWasm(raw json.RawMessage) (ev.Result, error) {
 		Policies     int
 		Constants    map[string]uint32
 		Lookups      map[string]string
+		Texts        map[string]string
 	}
 	if err := json.Unmarshal(bytes.TrimSpace(so.Bytes()), &r); err != nil || r.GOOS == "" {
 		if strings.Contains(se.String(), "panic:") || strings.Contains(so.String(), "panic:") {
@@ -630,6 +638,33 @@ func checkWasm(raw json.RawMessage) (ev.Result, error) {
 		}
 	}
 	res := ev.Result{Classes: []string{"js-wasm-executed", "table-less-target-executed"}, Sub: r.Policies + len(r.LoadErrs) + 3 + len(r.Lookups), NonTrivial: true}
+	if texts {
+		var keys []string
+		for k := range r.Texts {
+			keys = append(keys, k)
+		}
+		sort.Strings(keys)
+		for _, k := range keys {
+			var v uint32
+			want := ""
+			if _, err := fmt.Sscanf(k, "action:%d", &v); err == nil {
+				b, merr := seccomp.Action(v).MarshalText()
+				want = fmt.Sprintf("%s|%s|%v", seccomp.Action(v).String(), b, merr)
+			} else if _, err := fmt.Sscanf(k, "flag:%d", &v); err == nil {
+				want = seccomp.FilterFlag(v).String()
+			} else {
+				continue
+			}
+			if r.Texts[k] != want {
+				return res, fmt.Errorf("the text form of %s is %q in a js/wasm process and %q in this linux/amd64 process: not a function of the value alone", k, r.Texts[k], want)
+			}
+		}
+		if len(keys) == 0 {
+			return res, ev.Inconclusivef("the js/wasm program reported no text forms")
+		}
+		res.Classes = append(res.Classes, "text-forms-in-a-js-wasm-process")
+		res.Sub += len(keys)
+	}
 	// what reached the host while the stubs were called 200 times each: a js/wasm program has no other way out than the
 	// imports counted by the runner (clock, random numbers, timers, syscall/js). The Go runtime may call some of them on
 	// its own now and then (scheduler, collector), so only a count of at least one per stub call is attributed to the stubs.
@@ -673,6 +708,16 @@ func TestC19JsWasm(t *testing.T) {
 		c.Corpus = append(c.Corpus, json.RawMessage(hand))
 	}
 	ev.CheckOne(t, "C19", "jswasm", c, checkC19Wasm)
+}
+
+func TestC13JsWasm(t *testing.T) {
+	ev.Register("C13", "jswasm", checkC13Wasm)
+	var c c19WasmCase
+	for _, p := range corpusPolicies(3, 4242) {
+		b, _ := json.Marshal(p)
+		c.Corpus = append(c.Corpus, b)
+	}
+	ev.CheckOne(t, "C13", "jswasm", c, checkC13Wasm)
 }
 
 func TestC07JsWasm(t *testing.T) {
